@@ -122,7 +122,7 @@ impl Prop for C09 {
     fn meta() -> Meta {
         Meta {
             level: "exploration",
-            rule: "Programs from the C03/C07 grammar (INPUT, STOP, failures) plus raw long lines (5-200 statements on one line, long IF-false scans, IF-true with long tails, nested IFs) and deliberately non-terminating tails (GOTO self-loop, FOR STEP 0, counting loops), run with tracing on under a schedule with break+CONT at sampled boundaries. After EVERY evaluating host call (RUN, CONT, tick) with L/i the line and token index at call entry (probe): (a) every Trace record names L; (b) their number is <= 1 + number of IF tokens at index >= i on L; (c) at most one Print and at most one of REENTER/EXTRA IGNORED; (d) a break at a sampled boundary returns Idle within that call, and a non-terminating program is still Running after each call; (f) the program is also run in lock-step with the reference model: the number of evaluating calls is >= the number of statements the model executes, in total and between any two consecutive PRINT records; programs that end without input are also run on the natively built Web adapter, which must need exactly as many evaluating calls; (e) for programs without user functions the token-read counter (hook) grows by at most 64*len(L)+64. distinct_nontrivial = distinct (program, break set) hashes among runs with >= 5 evaluating calls.",
+            rule: "Programs from the C03/C07 grammar (INPUT, STOP, failures) plus raw long lines (5-200 statements on one line, long IF-false scans, operands of huge magnitude, IF-true with long tails, nested IFs) and deliberately non-terminating tails (GOTO self-loop, FOR STEP 0, counting loops), run with tracing on under a schedule with break+CONT at sampled boundaries. After EVERY evaluating host call (RUN, CONT, tick) with L/i the line and token index at call entry (probe): (a) every Trace record names L; (b) their number is <= 1 + number of IF tokens at index >= i on L; (c) at most one Print and at most one of REENTER/EXTRA IGNORED; (d) a break at a sampled boundary returns Idle within that call, and a non-terminating program is still Running after each call; (f) the program is also run in lock-step with the reference model: the number of evaluating calls is >= the number of statements the model executes, in total and between any two consecutive PRINT records; programs that end without input are also run on the natively built Web adapter, which must need exactly as many evaluating calls; (e) for programs without user functions the token-read counter (hook) grows by at most 64*len(L)+64. distinct_nontrivial = distinct (program, break set) hashes among runs with >= 5 evaluating calls.",
             real: &["abasic-core Interpreter run_next_statement / evaluate_statement / IF scan / DEF skip / INPUT rewind"],
             stub: &["the host (ticks, breaks, replies)"],
             assumptions: &[
